@@ -514,6 +514,33 @@ func runC02Rot(c *rotCase) string {
 			return fmt.Sprintf("untouched record %d decrypted to different bytes", i)
 		}
 	}
+	// Every earlier record at a distance at which a truncated or badly
+	// carried nonce counter, or a key kept across a rotation, would repeat
+	// (powers of two and their neighbours, the rotation period and its
+	// half) is offered to a copy of the reader at position At; none may be
+	// accepted. The AEAD holds no state besides its key, so a value copy of
+	// the Machine is an independent reader in the same state.
+	if c.Src != c.At {
+		var dists []int
+		for d := 1; d <= c.At; d *= 2 {
+			dists = append(dists, d-1, d, d+1)
+		}
+		dists = append(dists, 250, 499, 500, 501, 750, 999, 1000, 1001, 1500)
+		for _, d := range dists {
+			src := c.At - d
+			if d <= 0 || src < 0 || src == c.Src {
+				continue
+			}
+			cp := *r
+			got, err := safeRead(&cp, bytes.NewReader(recs[src]))
+			if isPanic(err) {
+				return "reader panicked: " + err.Error()
+			}
+			if err == nil {
+				return fmt.Sprintf("record %d delivered at position %d (distance %d) was accepted as valid and returned %d bytes", src, c.At, d, len(got))
+			}
+		}
+	}
 	got, err := safeRead(r, bytes.NewReader(recs[c.Src]))
 	if c.Src == c.At {
 		if err != nil || !bytes.Equal(got, pts[c.At]) {
